@@ -13,7 +13,12 @@ package tchannel
 // FrameOK: the three slices of a frame alias one buffer the way NewFrame
 // builds it. FrameFull additionally says the payload has the full protocol
 // capacity, which is what every pool implementation in the library provides.
-//@ pred FrameOK(f *Frame) := f != nil && f.buffer != nil && len(f.buffer) >= 16 &&
+// own(f) == 1: the current thread of control holds the frame (C12): it came
+// from the pool, a channel or an allocation and was not yet released, queued
+// or handed to another goroutine. Every access through a *Frame needs it.
+//@ ghostfield own
+//@ owned Frame own
+//@ pred FrameOK(f *Frame) := f != nil && own(f) == 1 && f.buffer != nil && len(f.buffer) >= 16 &&
 //@        arr(f.Payload) == arr(f.buffer) && off(f.Payload) == off(f.buffer) + 16 && len(f.Payload) == len(f.buffer) - 16 &&
 //@        arr(f.headerBuffer) == arr(f.buffer) && off(f.headerBuffer) == off(f.buffer) && len(f.headerBuffer) == 16
 //@ pred FrameFull(f *Frame) := FrameOK(f) && len(f.Payload) == 65519
@@ -75,6 +80,7 @@ package tchannel
 //@   property C03 C06
 
 //@ func (f *Frame) messageType() (t messageType)
+//@   requires own(f) == 1
 //@   ensures t == f.Header.messageType
 //@   property C03
 
@@ -583,10 +589,12 @@ package tchannel
 // Every pool in the library hands out frames shaped by NewFrame with the full
 // protocol payload capacity.
 //@ iface FramePool.Get() (f *Frame)
-//@   modifies nothing
+//@   modifies own(f)
 //@   ensures FrameFull(f)
 //@ iface FramePool.Release(f *Frame)
-//@   modifies nothing
+//@   label released-at-most-once-and-only-by-the-owner
+//@   consumes own(f)
+//@   modifies own(f)
 
 //@ functype messageForFragment(initial bool) (m message)
 //@   modifies nothing
@@ -658,9 +666,9 @@ package tchannel
 // The exchange-set callbacks re-evaluate connection/channel/peer state; they
 // never touch exchanges, fragments, frames or read buffers (assumed, T4).
 //@ funcfield messageExchangeSet.onRemoved()
-//@   modifies allbut errAttempts, readableFragment, Frame, messageExchangeSet, messageExchange, typed.ReadBuffer, cs
+//@   modifies allbut errAttempts, readableFragment, Frame, messageExchangeSet, messageExchange, typed.ReadBuffer, cs, own
 //@ funcfield messageExchangeSet.onAdded()
-//@   modifies allbut errAttempts, readableFragment, Frame, messageExchangeSet, messageExchange, typed.ReadBuffer, cs
+//@   modifies allbut errAttempts, readableFragment, Frame, messageExchangeSet, messageExchange, typed.ReadBuffer, cs, own
 //@ funcfield messageExchangeSet.onCancel(id uint32)
 //@   modifies all
 
@@ -697,7 +705,7 @@ package tchannel
 
 //@ func (mexset *messageExchangeSet) removeExchange(msgID uint32)
 //@   requires MexSetOK(mexset)
-//@   modifies allbut errAttempts
+//@   modifies allbut errAttempts, own, Frame
 //@   property C04 C10
 
 //@ func (mexset *messageExchangeSet) expireExchange(msgID uint32)
@@ -707,11 +715,12 @@ package tchannel
 
 //@ func (mex *messageExchange) shutdown()
 //@   requires MexSetOK(mex.mexset)
-//@   modifies allbut errAttempts
+//@   modifies allbut errAttempts, own, Frame
 //@   property C04 C10
 
 // A frame is only ever offered to the exchange registered under the frame's own id.
 //@ func (mex *messageExchange) forwardPeerFrame(frame *Frame) (err error)
+//@   requires own(frame) == 1
 //@   label frame-offered-to-its-own-exchange-only
 //@   requires mex.msgID == frame.Header.ID
 //@   requires mex.ctx != nil
@@ -719,7 +728,7 @@ package tchannel
 //@   property C04
 
 //@ func (mexset *messageExchangeSet) forwardPeerFrame(frame *Frame) (err error)
-//@   requires MexSetOK(mexset) && MexSetInv(mexset)
+//@   requires MexSetOK(mexset) && MexSetInv(mexset) && own(frame) == 1
 //@   requires forall k uint32 :: has(mexset.exchanges, k) ==> mexset.exchanges[k].ctx != nil
 //@   modifies nothing
 //@   property C04 C03
@@ -883,7 +892,7 @@ package tchannel
 // stays inside the declared payload size.
 //@ func parseInboundFragment(framePool FramePool, frame *Frame, message message) (fragment *readableFragment, err error)
 //@   requires FrameFull(frame) && frame.Header.size >= 16 && message != nil
-//@   modifies allbut Connection, Channel, Frame, messageExchangeSet, messageExchange, errAttempts, cs, bytes
+//@   modifies allbut Connection, Channel, Frame, messageExchangeSet, messageExchange, errAttempts, cs, bytes, own
 //@   defines decodefails(frame) <==> err != nil
 //@   label unknown-checksum-type-rejected
 //@   ensures err == nil ==> RF(fragment) && !fragment.isDone
@@ -1194,7 +1203,7 @@ package tchannel
 //@   property C03 C08
 
 //@ func newLazyError(f *Frame) (e lazyError)
-//@   requires f.Header.messageType == messageTypeError
+//@   requires own(f) == 1 && f.Header.messageType == messageTypeError
 //@   ensures e.Frame == f
 //@   property C03 C08 C20
 
